@@ -336,7 +336,12 @@ func (s stmt) hiddenA(sessionDB string) []string {
 			why = append(why, "C06-F3")
 		}
 	}
-	if s.A.Case%3 != 0 || s.A.Schema%4 == 3 {
+	if s.A.Schema%4 == 3 {
+		// schema written in another letter case than configured (DB.t): the rule map is keyed by
+		// the configured database name, the analysis compares the lower-cased schema
+		why = append(why, "C06-F8")
+	}
+	if s.A.Case%3 != 0 {
 		why = append(why, "C06-F1")
 	}
 	return why
@@ -370,7 +375,10 @@ func (s stmt) hiddenB(sessionDB string) []string {
 			why = append(why, "C06-F7")
 		}
 	}
-	if s.B.Case%3 != 0 || s.B.Schema%4 == 3 {
+	if s.B.Schema%4 == 3 {
+		why = append(why, "C06-F8")
+	}
+	if s.B.Case%3 != 0 {
 		why = append(why, "C06-F1")
 	}
 	return why
